@@ -156,6 +156,9 @@ pub fn gen(tier: &str, seed: u64, out: &mut dyn FnMut(Value)) {
             out(json!({"op": "xpath_pair", "a": p, "b": q, "tag": "pair: one character apart", "nt": true}));
         }
     }
+    // the segments a path spells are what a rule's field test looks up: scans against events served by derived
+    // getters (maps with dotted and padded keys, nested structs, aliases)
+    crate::props::engine::gen_derived(&mut rng, if tier == "thorough" { 5000 } else { 500 }, "lookups through derived getters", out);
     // equality / hash on all pairs of a sample that contains near-duplicates
     let mut pool: Vec<String> = sample.iter().take(if tier == "thorough" { 600 } else { 120 }).cloned().collect();
     let extra: Vec<String> = pool.iter().take(20).map(|p| format!("{p}.x")).collect();
